@@ -250,3 +250,5 @@ package types
 //@ func BytesToSignData   trusted
 //@   modifies nothing
 //@   ensures len(bytes) == 65 ==> content(result) == content(bytes)
+//@ func (AccountAccessor).IsEmpty   trusted
+//@   modifies nothing
